@@ -527,3 +527,8 @@ def run(rep, tier):
     rep.rule('R11', 'a constant actual parameter reaches its slot with its value also when the same constant, calls and variables surround it '
              '(import of the call-template rule C01-R14 for actual lists containing constants)', floor=20)
     c01.rule_call_registers(_report.Import(rep, 'R11', 'C01', key_filter=lambda r, k: any(t in k for t in ('num', '(k', ',k'))), idx)
+    # R12: constant (folded) subscripts take the same route to the element as variable ones (import of C01-R16, constant index shapes)
+    rep.rule('R12', 'an array element addressed with a constant subscript is read and written like one addressed with a variable: the '
+             'element template for  arr[c]  and  arr[x+c]  reaches mem[base + c] with the value of any right-hand side (variable, sum, '
+             'negation, comparison) -- import of the subscript templates C01-R16 for the index shapes that contain a constant', floor=8)
+    c01.rule_subscripts(_report.Import(rep, 'R12', 'C01', key_filter=lambda r, k: any(t in k for t in ('arr[c', 'arr[x+c', 'arr[x-c'))), idx)
